@@ -328,7 +328,18 @@ impl PoolGen {
         let pid = p.info.pool_identifier.clone();
         let slip = self.slip();
         let recv = self.receiver(w, &sender);
-        Some(swap_op(&sender, &pid, coin(amt, offer_denom), &ask, belief, slip, recv))
+        let mut op = swap_op(&sender, &pid, coin(amt, offer_denom.clone()), &ask, belief, slip, recv);
+        if self.rng.gen_range(0..25) == 0 {
+            // another coin riding along with the offer (the ask token, or any other)
+            if let Op::Pm { funds, .. } = &mut op {
+                let extra = if self.rng.gen_bool(0.5) { ask.clone() } else { w.cfg.denoms.choose(&mut self.rng).map(|(d, _)| d.clone()).unwrap_or_else(|| "uom".into()) };
+                if extra != offer_denom {
+                    funds.push(coin(self.rng.gen_range(1..1_000_000u128), extra));
+                    funds.sort_by(|a, b| a.denom.cmp(&b.denom));
+                }
+            }
+        }
+        Some(op)
     }
 
     pub fn gen_route(&mut self, w: &World, obs: &Obs, simple: bool) -> Option<Op> {
